@@ -11,10 +11,33 @@ BOOKKEEPING = {"contextual_modeling_obj_containers", "previous_change", "all_cha
                "previous_total_fabrication_footprints_sum_over_period", "trigger_modeling_updates"}
 
 
+def is_current(x):
+    """x is attached and is the value (or a dict entry of the value) its container holds at its attribute."""
+    cont, attr = x.modeling_obj_container, x.attr_name_in_mod_obj_container
+    if cont is None or attr is None:
+        return False
+    held = cont.__dict__.get(attr)
+    if held is x:
+        return True
+    if isinstance(held, dict):
+        return any(e is x for e in held.values())
+    return False
+
+
+def _edge_set(xs):
+    """Edges as a set of node ids (dict entries share the id of their dict: that is the graph users see and
+    export) plus the number of references that are not current (detached or superseded objects)."""
+    ids, stale = set(), 0
+    for x in xs:
+        if is_current(x):
+            ids.add(x.id)
+        else:
+            stale += 1
+    return frozenset(ids), stale
+
+
 def _edges(v):
-    anc = frozenset(id(a) for a in getattr(v, "direct_ancestors_with_id", []))
-    ch = frozenset(id(c) for c in getattr(v, "direct_children_with_id", []))
-    return anc, ch
+    return _edge_set(getattr(v, "direct_ancestors_with_id", [])), _edge_set(getattr(v, "direct_children_with_id", []))
 
 
 def snapshot(world, graph=True):
@@ -82,17 +105,20 @@ def diff(before, after):
                 ok, why = C.phys_equal(a["norm"], b["norm"])
                 out.append((k, "value object replaced" + ("" if ok else f" and value differs: {why}")))
                 continue
-            ok, why = C.phys_equal(a["norm"], b["norm"], rtol=0.0)
+            ok, why = C.phys_equal(a["norm"], b["norm"], rtol=1e-12)
             if not ok:
+                # (an in-place unit conversion may change the last bits; the physical value may not change)
                 out.append((k, f"same object, value mutated: {why}"))
             elif a["attached"] != b["attached"] or a["attr"] != b["attr"]:
                 out.append((k, "value object no longer attached to its attribute"))
             elif a["label"] != b["label"] or a["source"] != b["source"]:
                 out.append((k, "label or source changed"))
             elif "anc" in a and "anc" in b and a["anc"] != b["anc"]:
-                out.append((k, f"dependency graph: ancestors changed ({len(a['anc'])} -> {len(b['anc'])})"))
+                out.append((k, f"dependency graph: ancestors changed ({sorted(a['anc'][0] ^ b['anc'][0])[:3]}, "
+                               f"non-current references {a['anc'][1]} -> {b['anc'][1]})"))
             elif "ch" in a and "ch" in b and a["ch"] != b["ch"]:
-                out.append((k, f"dependency graph: children changed ({len(a['ch'])} -> {len(b['ch'])})"))
+                out.append((k, f"dependency graph: children changed ({sorted(a['ch'][0] ^ b['ch'][0])[:3]}, "
+                               f"non-current references {a['ch'][1]} -> {b['ch'][1]})"))
         elif "targets" in a:
             if "targets" not in b or len(a["targets"]) != len(b["targets"]) or any(
                     x is not y for x, y in zip(a["targets"], b["targets"])):
